@@ -608,6 +608,28 @@ static sb_error_t sb_i_poly_solve_4d(const sb_poly_t* poly, float rhs, float* ro
         return sb_i_poly_solve_3d(poly, rhs, roots, num_roots); /* LCOV_EXCL_LINE */
     }
 
+    if (fabsf(a) <= 1e-4f * fabsf(b)) {
+        /* The closed form below divides by powers of a: when a is tiny next
+         * to b (typically rounding noise left in the cubic coefficient of a
+         * curve that is really quadratic) it overflows or cancels in single
+         * precision. Solve the quadratic part instead, correct its roots for
+         * the cubic term with Newton steps and add the far-away third root. */
+        uint8_t i, k;
+
+        SB_CHECK(sb_i_poly_solve_3d(poly, rhs, roots, num_roots));
+        for (i = 0; i < *num_roots; i++) {
+            for (k = 0; k < 2; k++) {
+                float x = roots[i];
+                float slope = (3 * a * x + 2 * b) * x + c;
+                if (slope != 0) {
+                    roots[i] = x - (((a * x + b) * x + c) * x + d) / slope;
+                }
+            }
+        }
+        roots[(*num_roots)++] = -b / a + c / b;
+        return SB_SUCCESS;
+    }
+
     /* We are solving the equation ax^3 + bx^2 + cx + d = 0 */
     float p = (3 * a * c - b * b) / (3 * a * a);
     float q = (2 * b * b * b - 9 * a * b * c + 27 * a * a * d) / (27 * a * a * a);
